@@ -10,7 +10,9 @@ fn name_byte() -> BoxedStrategy<u8> {
         6 => prop::sample::select(b"abcxyz019-_.+".to_vec()),
         3 => prop::sample::select(vec![0xc3u8, 0xa0, 0x85, 0xe9, 0xff, 0xa9, 0x80, 0xc2]),
         2 => prop::sample::select(b"()=#$~".to_vec()),
-        1 => (0x21u8..=0xff).prop_filter("no slash", |b| *b != b'/'),
+        // any byte that no reading calls white space (control bytes included; VT and FF are left
+        // out with the other bytes of C's isspace)
+        1 => (0x01u8..=0xff).prop_filter("no slash, no white space", |b| *b != b'/' && !m::is_ws(*b)),
         1 => Just(0u8),
     ]
     .boxed()
@@ -43,6 +45,9 @@ fn patch_component() -> BoxedStrategy<Vec<u8>> {
             .prop_map(|(w, v)| [b"emul-".to_vec(), w, b"-patch-".to_vec(), v].concat()),
         1 => (prop::collection::vec(name_byte(), 0..4), prop::collection::vec(name_byte(), 0..6))
             .prop_map(|(w, v)| [b"emul-".to_vec(), w, b"-patch-".to_vec(), v].concat()),
+        // an emul name whose '.tar.' (or another exception marker) sits in front of '-patch-'
+        1 => (prop::sample::select(vec![&b"1.0.tar.gz"[..], b"a.tar.", b".tar.", b"x.tar", b"tar.gz", b"a.orig", b"local"]), prop::collection::vec(name_byte(), 0..6))
+            .prop_map(|(w, v)| [b"emul-".to_vec(), w.to_vec(), b"-patch-".to_vec(), v].concat()),
         // the exceptions (these are distfiles)
         3 => prop::sample::select(vec![
             &b"patch-local-x"[..], b"patch-a.orig", b"patch-a.rej", b"patch-a~", b"patch-2.7.6.tar.xz", b"foo.patch-1", b"emul-x",
